@@ -340,13 +340,20 @@ func BuildCte(query *Query, expr *sqlparser.With) error {
 		if query.options != nil {
 			query.options.ctes.Store(copy.ID.String(), struct{}{})
 		}
+		// what the name meant before the WITH: a table of the document, a CTE of an enclosing
+		// statement, or nothing
+		previous, shadows := data[copy.ID.String()]
 		var evaluate CteEvaluation
 		evaluate = func() (any, error) {
-			// while the CTE is being evaluated its name stands for an error: a CTE that refers to
-			// itself, directly or through another one, would otherwise recurse until the stack overflows
-			data[copy.ID.String()] = CteEvaluation(func() (any, error) {
-				return nil, EXPECTATION_FAILED.Extend(fmt.Sprintf("the CTE %s refers to itself", copy.ID.String()))
-			})
+			// a CTE is not recursive: while its body is evaluated its name means what it meant before
+			// (WITH t AS (SELECT ... FROM t) reads the document's t). Leaving the pending evaluation
+			// there would make a body that names its own CTE, directly or through another one, recurse
+			// until the stack overflows
+			if shadows {
+				data[copy.ID.String()] = previous
+			} else {
+				delete(data, copy.ID.String())
+			}
 			query, err := Prepare(query.data, copy.Subquery, query.options)
 			if err != nil {
 				data[copy.ID.String()] = evaluate
@@ -358,7 +365,7 @@ func BuildCte(query *Query, expr *sqlparser.With) error {
 				return nil, err
 			}
 			// (the query of the body has a document copy of its own when the body brings a WITH:
-			// the result goes where the references to this CTE look, next to the guard set above)
+			// the result goes where the references to this CTE look)
 			data[copy.ID.String()] = rs
 			return rs, nil
 		}
